@@ -74,8 +74,12 @@ func (fr *frame) get(key ssa.Value) value {
 		if r, ok := fr.in.globals[key]; ok {
 			return r
 		}
-		// lazily create globals of packages whose init was not run
+		// lazily create globals of packages whose init was not run; sentinel
+		// errors (var ErrX = errors.New(...)) get a distinct non-nil value
 		cell := fr.in.zero(deref(key.Type()))
+		if types.Identical(deref(key.Type()), types.Universe.Lookup("error").Type()) && strings.HasPrefix(key.Name(), "Err") {
+			cell = fr.in.mkError(key.Pkg.Pkg.Path()+"."+key.Name(), nil)
+		}
 		fr.in.globals[key] = &cell
 		return &cell
 	}
